@@ -1128,6 +1128,14 @@ def add_time_after_dose(model: Model):
 
     df['_DOSEID'] = get_doseid(temp)
 
+    try:
+        event = temp.datainfo.typeix['event'][0].name
+    except IndexError:
+        df['_RESETGROUP'] = 0
+    else:
+        # Time could restart at a reset event
+        df['_RESETGROUP'] = (df[event] >= 3).groupby(df[idlab]).cumsum()
+
     # Sort in case DOSEIDs are non-increasing
     df = (
         df.groupby(idlab)[df.columns]
@@ -1135,14 +1143,15 @@ def add_time_after_dose(model: Model):
         .reset_index(drop=True)
     )
 
-    df['TAD'] = df.groupby([idlab, '_DOSEID'])['_NEWTIME'].diff().fillna(0.0)
-    df['TAD'] = df.groupby([idlab, '_DOSEID'])['TAD'].cumsum()
+    groups = [idlab, '_RESETGROUP', '_DOSEID']
+    df['TAD'] = df.groupby(groups)['_NEWTIME'].diff().fillna(0.0)
+    df['TAD'] = df.groupby(groups)['TAD'].cumsum()
 
     if addl:
         df = df[~df['EXPANDED']].reset_index(drop=True)
         df.drop(columns=['EXPANDED'], inplace=True)
 
-    df.drop(columns=['_NEWTIME', '_DOSEID'], inplace=True)
+    df.drop(columns=['_NEWTIME', '_DOSEID', '_RESETGROUP'], inplace=True)
 
     # FIXME: Temp workaround, should be canonicalized in Model.replace
     di = update_datainfo(model.datainfo, df)
